@@ -330,7 +330,13 @@ class Ctx:
             for line in open(outp):
                 line = line.strip()
                 if line:
-                    res.append(json.loads(line))
+                    try:
+                        res.append(json.loads(line))
+                    except ValueError:
+                        # a truncated last line: the engine process died while writing
+                        if p.returncode == 0:
+                            raise
+                        break
         if p.returncode != 0:
             # The engine died (abort/segfault in code under test, or a tool error).
             sys.stderr.write(p.stderr[-4000:])
